@@ -66,6 +66,13 @@ class GenV(Value):
         return list(self.r)
 
 
+class StarArgs(Value):
+    """`*xs` at a call site where xs has symbolic length (the only positional argument of the call)"""
+
+    def __init__(self, seq):
+        self.seq = seq
+
+
 class SuperV(Value):
     def __init__(self, self_val, defcls):
         self.self_val, self.defcls = self_val, defcls
@@ -516,6 +523,9 @@ def str_methods(interp, s, name):
                     if sq is not None and not sq.is_concrete_len():
                         # ''.join(list of single characters) of symbolic length: same codes, kind 'str'
                         return sq.retag('str') if hasattr(sq, 'retag') else SSeq(sq.length, sq.get, 'str')
+                    sq_any = as_seq_or_none(interp, a[0]) if isinstance(a[0], Value) else None
+                    if sq_any is not None and not sq_any.is_concrete_len():
+                        return OpaqueStr()      # text of a message assembled from a symbolic number of parts: dropped
                     parts = interp.iter_concrete(a[0])
                     if all(isinstance(p, str) for p in parts):
                         return s.join(parts)
